@@ -716,10 +716,10 @@ func (cs *Contracts) loadContractFile(file, pkg string, trusted bool) error {
 			cur = nil
 		case "pool":
 			f := strings.Fields(rest)
-			if len(f) != 2 {
-				return fail(rl.line, "pool <global> <type>")
+			if len(f) != 2 && len(f) != 3 {
+				return fail(rl.line, "pool <global> <type> [<spec predicate every pooled value satisfies>]")
 			}
-			cs.Pools[qualifyVar(pkg, f[0])] = f[1]
+			cs.Pools[qualifyVar(pkg, f[0])] = strings.Join(f[1:], " ")
 			cur = nil
 		case "track":
 			for _, n := range splitNames(rest) {
